@@ -338,17 +338,28 @@ def ob_columns(ctx, o, F):
     prog = ctx.prog
     mod = prog.module(CSV)
     # ---- the default field list
-    st = module_const_stmt(mod, '__DEFAULT_FIELDS')
     consts = module_consts(mod)
+    # the module constant that lists the default columns, under whatever name (today __DEFAULT_FIELDS): the one literal string
+    # list that shares at least half of the property's column names
+    cands = []
+    for nm, v in consts.items():
+        seq = const_seq(fx_resolve_module(mod, v))
+        if seq is not None and all(isinstance(x, str) for x in seq) and len(set(seq) & set(COLUMNS)) * 2 >= len(COLUMNS):
+            cands.append(nm)
+    if len(cands) > 1:      # derived constants (NAME_SET = frozenset(NAMES), A = B + []) are not the list itself
+        lit = [nm for nm in cands if isinstance(consts[nm], (ast.List, ast.Tuple))]
+        cands = lit if len(lit) == 1 else (['__DEFAULT_FIELDS'] if '__DEFAULT_FIELDS' in cands else cands)
+    dname = cands[0] if len(cands) == 1 else '__DEFAULT_FIELDS'
+    st = module_const_stmt(mod, dname)
     default_ok = False
-    if st is None or '__DEFAULT_FIELDS' not in consts:
-        o.undecided(None, st, '__DEFAULT_FIELDS', "module constant __DEFAULT_FIELDS of io/csv_io.py not found as a single literal assignment")
+    if st is None or dname not in consts:
+        o.undecided(None, st, dname, f"module constant {dname} (list of the default columns) of io/csv_io.py not found as a single literal assignment")
     else:
-        val = const_seq(fx_resolve_module(mod, consts['__DEFAULT_FIELDS']))
+        val = const_seq(fx_resolve_module(mod, consts[dname]))
         if val is None:
-            o.undecided(None, st, '__DEFAULT_FIELDS', "__DEFAULT_FIELDS is not a literal list of strings")
+            o.undecided(None, st, dname, f"{dname} is not a literal list of strings")
         else:
-            default_ok = _compare_columns(o, None, st, val, '__DEFAULT_FIELDS')
+            default_ok = _compare_columns(o, None, st, val, dname)
     w = find_writer(ctx, o)
     if w is None:
         return
@@ -1758,6 +1769,52 @@ def _reader_idlist(leaf, S, col, info, W, bad, unk):
                 return
 
 
+def _memo_decorator(node, imports):
+    """functools.lru_cache / functools.cache on a function definition -> 'typed' | 'untyped' | None (not memoised)"""
+    for d in getattr(node, 'decorator_list', []):
+        call = d if isinstance(d, ast.Call) else None
+        fn = call.func if call is not None else d
+        p_ = attr_path(fn) or ''
+        base = p_.split('.')[-1]
+        origin = imports.get(p_.split('.')[0], '')
+        if base in ('lru_cache', 'cache') and (p_.startswith('functools.') or origin.startswith('functools')):
+            typed = call is not None and (any(k.arg == 'typed' and isinstance(k.value, ast.Constant) and k.value.value is True for k in call.keywords)
+                                          or (len(call.args) > 1 and isinstance(call.args[1], ast.Constant) and call.args[1].value is True))
+            return 'typed' if typed else 'untyped'
+    return None
+
+
+def _memoised_formatters(ctx, o, wf):
+    """cells formatted through a helper memoised with functools.lru_cache / cache (typed=False): the cache key is the VALUE, and
+    1 == 1.0 == True, 0 == 0.0 == False hash alike - when one such helper serves the bool column and a numeric column, the text of
+    whichever was formatted first in the process is returned for the others.
+    Read from the module TEXT as written (the normaliser splices new one-expression helpers into their callers and the
+    decorator would be lost): module level functions of io/csv_io.py with the decorator, called with <x>.<column> arguments."""
+    mod = wf.module
+    try:
+        tree = ast.parse(mod.src)
+    except SyntaxError:
+        return
+    memo = {st.name: st for st in tree.body if isinstance(st, ast.FunctionDef) and _memo_decorator(st, mod.imports) == 'untyped'}
+    if not memo:
+        return
+    used = {}
+    for c in ast.walk(tree):
+        if isinstance(c, ast.Call) and isinstance(c.func, ast.Name) and c.func.id in memo and len(c.args) == 1 and not c.keywords:
+            a0 = c.args[0]
+            if isinstance(a0, ast.Attribute) and isinstance(a0.value, ast.Name) and a0.attr in KIND:
+                used.setdefault(c.func.id, {}).setdefault(a0.attr, c)
+    for name, cols in used.items():
+        bools = [c_ for c_ in cols if KIND[c_] == 'bool']
+        nums = [c_ for c_ in cols if KIND[c_] in ('int', 'optint', 'float')]
+        if bools and nums:
+            o.refute(wf, None, f"{name} memoised for {', '.join(sorted(cols))}",
+                     f"the cells of `{bools[0]}` and `{'`, `'.join(nums)}` are formatted by `{name}` ({mod.rel}:{memo[name].lineno}), which is memoised with "
+                     f"functools.lru_cache/cache (typed=False): the cache key does not distinguish True / 1 / 1.0 (nor False / 0 / 0.0), so whichever is "
+                     f"formatted first decides the text of the others - a milestone flag is written as '1'/'1.0' (read back as False) or an estimate "
+                     f"of 1 as 'True' (ValueError on read); expected an unmemoised formatter (or typed=True / one formatter per column kind)")
+
+
 def ob_converters(ctx, o, F):
     w = find_writer(ctx, o)
     r = find_reader(ctx, o)
@@ -1775,6 +1832,7 @@ def ob_converters(ctx, o, F):
             if not _mentions(e, S):
                 continue        # reported by C13.columns
             _writer_column(ctx, o, wfun, rcall if wfun is f else None, col, e, S, W)
+    _memoised_formatters(ctx, o, f)
     rf = r['func']
     cells = F.reader_cells
     if cells is None:
@@ -1855,7 +1913,14 @@ def _io_side(ctx, o, func, what, entry=None, bind=None):
         return None
     if not (isinstance(arg0, ast.Name) and arg0.id == fvar):
         a0 = fx.x(arg0, keep=[fvar]) if fx.flow.node_of_expr(arg0) is not None else arg0
+        a0 = _gen_as_comp(ctx, func, a0)
         kind, why = _line_source(a0, fvar) if what == 'reader' else ('unknown', None)
+        if kind == 'transformed' and why.startswith('rewritten') and any(const_str(n) == BOM for n in ast.walk(a0)):
+            o.refute(func, cs, f"csv.reader over {src(arg0)[:90]}",
+                     f"csv.reader is fed from `{src(arg0)[:60]}`, which yields every line of the file {why} - U+FEFF is removed from EVERY line, not "
+                     f"only from the byte-order mark position at the start of the file: a name, resource or custom attribute value that contains "
+                     f"U+FEFF (zero width no-break space) loses it on read (expected the mark to be stripped from the header names only)")
+            return None
         if kind == 'transformed':
             o.refute(func, cs, f"csv.reader over {src(a0)[:90]}",
                      f"csv.reader is fed from `{src(a0)[:90]}` - the file's physical lines {why.replace(' (SPLITLINES-BOUNDARIES)', '')} - instead of the file object: "
@@ -1876,6 +1941,42 @@ def _io_side(ctx, o, func, what, entry=None, bind=None):
     if len(cs.args) > 1:
         d['extra']['<dialect>'] = cs.args[1]
     return d
+
+
+def _gen_as_comp(ctx, func, x, depth=0):
+    """`g(ARG)` with a private line generator `def g(lines): for line in lines: [if C: continue] yield E` / `if C: yield E`
+    -> the generator expression `(E for line in ARG if ..)` it stands for (nested calls too); anything else unchanged"""
+    if depth > 3 or not isinstance(x, ast.Call):
+        return x
+    hf = package_helper(ctx, func, x)
+    if hf is None or hf.module is not func.module:
+        if isinstance(x.func, ast.Name) and x.func.id in ('iter', 'list', 'tuple') and len(x.args) == 1 and not x.keywords:
+            return ast.Call(func=x.func, args=[_gen_as_comp(ctx, func, x.args[0], depth + 1)], keywords=[])
+        return x
+    b = bind_call(x, hf)
+    body = [st for st in hf.node.body if not (isinstance(st, ast.Expr) and isinstance(st.value, ast.Constant))]
+    if b is None or len(b) != 1 or len(body) != 1 or not isinstance(body[0], ast.For) or body[0].orelse or not isinstance(body[0].target, ast.Name) \
+            or not (isinstance(body[0].iter, ast.Name) and body[0].iter.id in b) or hf.node.decorator_list:
+        return x
+    lp = body[0]
+    ifs = []
+    elt = None
+    for i, st in enumerate(lp.body):
+        last = i == len(lp.body) - 1
+        if isinstance(st, ast.If) and not st.orelse and len(st.body) == 1 and isinstance(st.body[0], ast.Continue) and not last:
+            ifs.append(ast.UnaryOp(op=ast.Not(), operand=st.test))
+        elif last and isinstance(st, ast.If) and not st.orelse and len(st.body) == 1 and isinstance(st.body[0], ast.Expr) \
+                and isinstance(st.body[0].value, ast.Yield) and st.body[0].value.value is not None:
+            ifs.append(st.test)
+            elt = st.body[0].value.value
+        elif last and isinstance(st, ast.Expr) and isinstance(st.value, ast.Yield) and st.value.value is not None:
+            elt = st.value.value
+        else:
+            return x
+    if elt is None or any(isinstance(n, (ast.Yield, ast.YieldFrom)) for n in ast.walk(elt)):
+        return x
+    arg = _gen_as_comp(ctx, func, b[lp.iter.id], depth + 1)
+    return ast.fix_missing_locations(ast.GeneratorExp(elt=elt, generators=[ast.comprehension(target=lp.target, iter=arg, ifs=ifs, is_async=0)]))
 
 
 def _line_source(x, fvar):
@@ -2801,6 +2902,7 @@ def ob_order(ctx, o, F):
                 o.refute(f, n, src(n)[:80], f"`{src(n)[:60]}` prepends: order is reversed")
     _pred_rebuild(ctx, o)
     _children_rebuild(ctx, o)
+    _shared_defaults(ctx, o)
     # ---- the sequences handed from stage to stage
     wr, rd = prog.func(CSV + '.write_csv'), prog.func(CSV + '.read_csv')
     t2r, r2w = prog.func(RAW + '.tasks_to_raws'), prog.func(RAW + '.raws_to_wbs')
@@ -2873,6 +2975,67 @@ def ob_order(ctx, o, F):
             o.undecided(rd, rets[0], rv, "read_csv does not return raws_to_wbs(<accumulated rows>)")
     else:
         o.undecided(rd, rd.node, 'read_csv return', "read_csv has no single return")
+
+
+_MUTATORS = ('append', 'extend', 'insert', 'add', 'update', 'setdefault', 'pop', 'popitem', 'remove', 'discard', 'clear', 'appendleft',
+             'extendleft', 'sort', 'reverse', '__setattr__', '__setitem__', '__delitem__')
+_CONTAINER_CTORS = ('list', 'dict', 'set', 'deque', 'defaultdict', 'OrderedDict', 'bytearray', 'Counter')
+
+
+def _chain_root(e):
+    """x.a.b[c].d -> Name x (through attributes, subscripts and method-call receivers)"""
+    while True:
+        if isinstance(e, (ast.Attribute, ast.Subscript)):
+            e = e.value
+        elif isinstance(e, ast.Call) and isinstance(e.func, ast.Attribute):
+            e = e.func.value
+        else:
+            return e if isinstance(e, ast.Name) else None
+
+
+def _shared_defaults(ctx, o):
+    """a parameter of a round trip function whose default is a freshly built mutable object (`wbs: WBS = WBS()`, `acc=[]`): the default
+    is evaluated ONCE, when the function is defined - if the function stores into it or hands it out, every call that omits the
+    argument works on the same object, so the result of one read_csv/write_csv call contains what earlier calls left there"""
+    prog = ctx.prog
+    for f in _order_funcs(prog):
+        a = f.node.args
+        pos = a.posonlyargs + a.args
+        defaults = list(zip(pos[len(pos) - len(a.defaults):], a.defaults)) + [(k, d) for k, d in zip(a.kwonlyargs, a.kw_defaults) if d is not None]
+        for arg, d in defaults:
+            what = None
+            if isinstance(d, (ast.List, ast.Dict, ast.Set, ast.ListComp, ast.DictComp, ast.SetComp)):
+                what = 'a container literal'
+            elif isinstance(d, ast.Call) and isinstance(d.func, ast.Name) and d.func.id in _CONTAINER_CTORS:
+                what = f"a {d.func.id}() object"
+            elif isinstance(d, ast.Call) and isinstance(d.func, ast.Name) and d.func.id in prog.classes:
+                what = f"a {d.func.id} object"
+            if what is None:
+                continue
+            name = arg.arg
+            fx = fx_of(ctx, f)
+            if any(dd.kind != 'param' for dd in fx.flow.defs_of(name)):
+                continue        # rebound inside the function: which object is used is a flow question the rule does not follow
+            use = None
+            for n in walk_no_nested(f.node):
+                if isinstance(n, ast.Call) and isinstance(n.func, ast.Attribute) and n.func.attr in _MUTATORS:
+                    r_ = _chain_root(n.func.value)
+                    if r_ is not None and r_.id == name:
+                        use = (n, 'stores into it')
+                        break
+                elif isinstance(n, (ast.Assign, ast.AugAssign, ast.AnnAssign, ast.Delete)):
+                    tgs = n.targets if isinstance(n, (ast.Assign, ast.Delete)) else [n.target]
+                    hit = [t for t in tgs if isinstance(t, (ast.Attribute, ast.Subscript)) and _chain_root(t) is not None and _chain_root(t).id == name]
+                    if hit:
+                        use = (n, 'stores into it')
+                        break
+                elif isinstance(n, (ast.Return, ast.Yield)) and isinstance(n.value, ast.Name) and n.value.id == name and use is None:
+                    use = (n, 'hands it out')
+            if use is not None:
+                o.refute(f, d, f"{f.name}({name}={src(d)[:40]})",
+                         f"parameter `{name}` of {f.name} has the default `{src(d)[:40]}` - {what} built ONCE when the function is defined - and the function "
+                         f"{use[1]} (`{src(use[0])[:60]}`): every call that omits `{name}` works on the same shared object, so a second "
+                         f"read_csv / write_csv in one process also sees the tasks of the first (expected `{name}=None` and a new object per call)")
 
 
 def _mentions_pred_ids(e) -> bool:
